@@ -99,6 +99,8 @@ struct SimSlot {
     text: String,
     /// (rule hint, a, b) ranges in which a seed text sits
     pieces: Vec<(String, usize, usize)>,
+    /// very large inputs are dropped after a few operations (every observation carries the text as part of its key)
+    ops_left: Option<usize>,
 }
 
 fn boundaries(t: &str) -> Vec<usize> {
@@ -311,6 +313,10 @@ pub fn generate(seed: u64, grammars: &[Grammar]) -> Scenario {
                     let (of, _) = results.remove(0);
                     ops.push(Op::DropResult { of });
                 }
+                let mut drop_big = false;
+                if let Some(n) = slots[slot].as_ref().and_then(|sl| sl.ops_left) {
+                    drop_big = n <= 1;
+                }
                 let (gname, rule2, thread) = (g.name.to_string(), rule.clone(), rng.below(threads));
                 ops.push(Op::Parse { id, slot, g: gname.clone(), rule, entry, form, a, b, thread });
                 // twin: the same rule from the same start over a slightly shorter or longer sub-range (a result can
@@ -327,6 +333,20 @@ pub fn generate(seed: u64, grammars: &[Grammar]) -> Scenario {
                         let thread2 = if rng.chance(1, 2) { rng.below(threads) } else { thread };
                         let entry2 = if rng.chance(3, 4) { Entry::ParsePartial } else { Entry::ALL[rng.below(4)] };
                         ops.push(Op::Parse { id: id2, slot, g: gname, rule: rule2, entry: entry2, form: Form::Span, a, b: b2, thread: thread2 });
+                    }
+                }
+                if let Some(sl) = slots[slot].as_mut() {
+                    if let Some(n) = sl.ops_left.as_mut() {
+                        *n = n.saturating_sub(1);
+                    }
+                }
+                if drop_big {
+                    // the very large input has had its few operations: free it (and what borrows from it)
+                    if let Some(old) = slots[slot].take() {
+                        last_dropped_len = Some(old.text.len());
+                        parses.retain(|p| p.1 != slot);
+                        results.retain(|p| p.1 != slot);
+                        ops.push(Op::DropInput { slot });
                     }
                 }
             }
@@ -374,7 +394,7 @@ pub fn generate(seed: u64, grammars: &[Grammar]) -> Scenario {
                     if rng.chance(1, 2) {
                         // the same String object overwritten in place
                         ops.push(Op::Refill { slot, text: best.0.clone() });
-                        slots[slot] = Some(SimSlot { g: gi, text: best.0, pieces: best.1 });
+                        slots[slot] = Some(SimSlot { g: gi, text: best.0, pieces: best.1, ops_left: if big { Some(3) } else { None } });
                         force_parse_on = Some(slot);
                         continue;
                     }
@@ -385,7 +405,7 @@ pub fn generate(seed: u64, grammars: &[Grammar]) -> Scenario {
                     }
                 }
                 ops.push(Op::New { slot, text: best.0.clone(), reuse: rng.chance(4, 5) });
-                slots[slot] = Some(SimSlot { g: gi, text: best.0, pieces: best.1 });
+                slots[slot] = Some(SimSlot { g: gi, text: best.0, pieces: best.1, ops_left: if big { Some(3) } else { None } });
                 // place the next operation inside the state just created
                 force_parse_on = Some(slot);
             }
